@@ -22,7 +22,14 @@ class SendPdu(PbMessageWrapper):
     def to_packet(self):
         """Convert SendPdu message to its scapy equivalent
         """
-        return ESB_Payload_Hdr(bytes(self.pdu))
+        packet = ESB_Payload_Hdr(bytes(self.pdu))
+
+        # Set packet metadata (sending options)
+        packet.metadata = UnifyingMetadata()
+        packet.metadata.channel = self.channel
+        packet.metadata.raw = False
+        packet.metadata.retransmission_count = self.retr_count
+        return packet
 
     @staticmethod
     def from_packet(packet, retr_count: int = 1):
@@ -49,6 +56,12 @@ class SendRawPdu(PbMessageWrapper):
         """
         packet = ESB_Hdr(bytes(self.pdu))
         packet.preamble = 0xAA
+
+        # Set packet metadata (sending options)
+        packet.metadata = UnifyingMetadata()
+        packet.metadata.channel = self.channel
+        packet.metadata.raw = True
+        packet.metadata.retransmission_count = self.retr_count
         return packet
 
 
